@@ -851,6 +851,24 @@ package hashgraph
 //@   loop 5 invariant[voters] forall k int :: 0 <= k && k < len(ssWitnesses) ==> SSV(h, y, ssWitnesses[k], PSHexOf(jPrevPeerSet)) && DecidedOrWit(jPrevRoundInfo, ssWitnesses[k])
 //@   loop 6 invariant[tally] yays + nays == __idx() && yays == __countseq(ssWitnesses, __idx(), func(w string) bool { return __in(w, votes) && __in(x, votes[w]) && votes[w][x] })
 
+// DecideRoundReceived: an event x gets round-received i only if i is above x's own round, round i is decided,
+// every famous witness recorded for round i sees x, and those famous witnesses number strictly more than two thirds of
+// round i's validator set; every round between x's round and i was examined first (ascending order).
+//@ func (h *Hashgraph) DecideRoundReceived() error
+//@   requires h != nil && h.MemoOK()
+//@   ensures[memo] h.MemoOK()
+//@   call SetRoundReceived assert[target]          __recv() == G_events(h.Store)[x] && __arg(0) == i
+//@   call SetRoundReceived assert[after-creation]  i > RoundV(h, x)
+//@   call SetRoundReceived assert[decided]         tr == G_rounds(h.Store)[i] && tr.decided
+//@   call SetRoundReceived assert[all-famous-see]  __enum(fws, tr.CreatedEvents, func(w string) bool { return FW(tr, w) }) && (forall k int :: 0 <= k && k < len(fws) ==> AncV(h, fws[k], x))
+//@   call SetRoundReceived assert[quorum]          tPeers == G_pset(h.Store)[i] && 3*len(fws) > 2*len(tPeers.ByPubKey)
+//@   call AddReceivedEvent assert[same-round]      __recv() == tr && __arg(0) == x
+//@   loop 1 invariant[memo] h.MemoOK()
+//@   loop 2 invariant[memo] h.MemoOK()
+//@   loop 2 invariant[above] i > r
+//@   loop 3 invariant[memo] h.MemoOK()
+//@   loop 3 invariant[see]  len(s) <= __idx() && (len(s) == __idx() ==> (forall k int :: 0 <= k && k < __idx() ==> AncV(h, fws[k], x)))
+
 // ------------------------------------------------------------------------------------------------
 // Signature pool (C05, C09)
 
